@@ -153,6 +153,19 @@ fn check(rep: &mut Report, prog: &[C]) {
         Err(e) if e == "TIMEOUT" => { rep.fail("sound", inp.clone(), "termination".into(), "no result within 20 s".into(), "diverges"); rep.print(); std::process::exit(0); }
         Err(e) => rep.fail("sound", inp.clone(), format!("{} solutions", exp.len()), e, "panic"),
         Ok(got) => {
+            // C09 (deterministic): a second run (fresh variables, fresh hash states in the domain and constraint
+            // stores, whose iteration order drives propagation and labeling) yields the same SEQUENCE of answers
+            if variant == 0 || variant == 3 {
+                rep.case("determinism", inp.clone());
+                let p2 = prog.to_vec();
+                if let Ok(again) = guard_timeout(move || run_real(&p2, variant), 20) {
+                    if again != got {
+                        // "order": the same answers in another order; "answers": anything else
+                        let (mut a, mut b) = (got.clone(), again.clone()); a.sort(); b.sort();
+                        rep.fail("determinism", inp.clone(), format!("{:?}", got), format!("{:?}", again), if a == b { "order" } else { "answers" });
+                    }
+                }
+            }
             // soundness: each answer ground, within domains, satisfies all constraints
             for g in &got {
                 if g.iter().any(|x| x.is_none()) { rep.fail("complete", inp.clone(), "ground answers (every FD variable labeled)".into(), format!("{:?}", g), class); break; }
@@ -227,16 +240,30 @@ pub fn search(tier: &str, seed: u64, only: Option<&str>) {
             let mut p = vec![C::DomR(0, 0, 3), C::DomR(b, 0, 3), C::Eq(A::V(a), A::V(b)), k.clone(), C::DomR(3 - a - b, 0, 3)]; if a + b == 3 { p.pop(); } fixed.push(p);
         }
     }
+    // C09 probes: programs on which the answer ORDER is known to depend on hash iteration order (known finding); each
+    // is run up to 40 times so that the dependence shows reliably
+    if only.is_none() {
+        for txt in ["x1in{0 1 2 4 5};times(x1,x2,x1);lte(x0,x2);x0in4..5;x2in{2 1 5 5 3 4}"] {
+            let prog = parse_prog(txt);
+            let first = run_real(&prog, 0);
+            rep.case("determinism", format!("probe {}", txt));
+            for _ in 0..40 {
+                let again = run_real(&prog, 0);
+                if again != first {
+                    let (mut a, mut b) = (first.clone(), again.clone()); a.sort(); b.sort();
+                    rep.fail("determinism", txt.to_string(), format!("{:?}", first), format!("{:?}", again), if a == b { "order" } else { "answers" });
+                    break;
+                }
+            }
+        }
+    }
     for p in &fixed { if only.map_or(true, |o| show(p).contains(o)) { check(&mut rep, p); } }
     let mut r = Rng(0x9E3779B97F4A7C15 ^ (seed.wrapping_mul(0x2545F4914F6CDD1D)) | 1);
     for i in 0..n { let p = gen(&mut r, i % 2 == 0); check(&mut rep, &p); }
     rep.print();
 }
 
-pub fn replay(input: &str) {
-    // input: "<check> <program text>" in the format printed by show()
-    let body = input.splitn(2, ' ').nth(1).unwrap_or(input);
-    let body = body.trim_end_matches(" [compound-query]").trim_end_matches(" [nested-compound-query]").trim_end_matches(" [hidden-variables]");
+fn parse_prog(body: &str) -> Vec<C> {
     let op = |s: &str| -> A { if let Some(r) = s.strip_prefix('x') { A::V(r.parse().unwrap()) } else { A::K(s.parse().unwrap()) } };
     let mut prog = vec![];
     for c in body.split(';') {
@@ -247,7 +274,28 @@ pub fn replay(input: &str) {
         prog.push(match &c[..p] { "plus" => C::Plus(args[0], args[1], args[2]), "minus" => C::Minus(args[0], args[1], args[2]), "times" => C::Times(args[0], args[1], args[2]),
             "lte" => C::Lte(args[0], args[1]), "lt" => C::Lt(args[0], args[1]), "ne" => C::Ne(args[0], args[1]), "distinct" => C::Distinct(args), _ => C::Eq(args[0], args[1]) });
     }
+    prog
+}
+
+pub fn replay(input: &str) {
+    // input: "<check> <program text>" in the format printed by show()
+    let body = input.splitn(2, ' ').nth(1).unwrap_or(input);
+    let body = body.trim_end_matches(" [compound-query]").trim_end_matches(" [nested-compound-query]").trim_end_matches(" [hidden-variables]");
+    let prog = parse_prog(body);
     let mut rep = Report::new("clpfd", "replay");
+    if input.starts_with("determinism ") {
+        // a nondeterministic order shows in about half of the pairs of runs: compare up to 40 runs with the first
+        let first = run_real(&prog, 0);
+        rep.case("determinism", body.to_string());
+        for _ in 0..40 {
+            let again = run_real(&prog, 0);
+            if again != first {
+                let (mut a, mut b) = (first.clone(), again.clone()); a.sort(); b.sort();
+                rep.fail("determinism", body.to_string(), format!("{:?}", first), format!("{:?}", again), if a == b { "order" } else { "answers" });
+                break;
+            }
+        }
+    }
     check(&mut rep, &prog);
     rep.print();
 }
